@@ -3,7 +3,7 @@
     Scalars are integers reduced modulo the parameter q; groups are abstract Z_q-modules (module_laws). *)
 From SL Require Import Lib.Base Model.Matrix Model.Poly Model.PolyDlog Model.PolyBirkhoff.
 From SL Require Import Proofs.PolyFact Proofs.PolySum Proofs.PolyDeriv Proofs.PolyGroup Proofs.PolyDlog
-  Proofs.PolyBirkhoff.
+  Proofs.PolyBirkhoff Proofs.PolyLagrange.
 Local Open Scope Z_scope.
 
 (** The 21-entry u64 table computed by the model of small_factorial (with the u64 wrap written in) equals
@@ -189,6 +189,66 @@ Check birkhoff_interpolates_exponent :
     g_get_constant G (commit G smul gen f) = Val (smul (nth 0 f 0) gen) /\
     smul (evaluate_at q f 0) gen = smul (nth 0 f 0) gen.
 Print Assumptions birkhoff_interpolates_exponent.
+
+(** All derivative orders zero: the coefficients satisfy the Lagrange equation at 0,
+    b_j * prod_{m<>j} (x_m - x_j) = prod_{m<>j} x_m (mod q)  (lag_den / lag_num; again with the left-inverse premise). *)
+Theorem birkhoff_lagrange_equation :
+  forall (q : Z) (params : list (Z * nat)), params <> [] ->
+  Z.of_nat (length params) <= 2 ^ 64 ->
+  (forall i : nat, (i < length params)%nat -> snd (nth i params (0%Z, 0%nat)) = 0%nat) ->
+  forall Minv : mat,
+  matrix_inverse q (birkhoff_matrix q params) (length params) = Val Minv ->
+  mat_mul q Minv (birkhoff_matrix q params) = mat_id (length params) ->
+  exists b : list Z,
+    birkhoff_coeffs q params = Val b /\
+    (forall j : nat, (j < length params)%nat -> (nth j b 0 * lag_den params j) mod q = lag_num params j mod q).
+Proof. exact PolyLagrange.birkhoff_lagrange_equation. Qed.
+Check birkhoff_lagrange_equation :
+  forall (q : Z) (params : list (Z * nat)), params <> [] ->
+  Z.of_nat (length params) <= 2 ^ 64 ->
+  (forall i : nat, (i < length params)%nat -> snd (nth i params (0%Z, 0%nat)) = 0%nat) ->
+  forall Minv : mat,
+  matrix_inverse q (birkhoff_matrix q params) (length params) = Val Minv ->
+  mat_mul q Minv (birkhoff_matrix q params) = mat_id (length params) ->
+  exists b : list Z,
+    birkhoff_coeffs q params = Val b /\
+    (forall j : nat, (j < length params)%nat -> (nth j b 0 * lag_den params j) mod q = lag_num params j mod q).
+Print Assumptions birkhoff_lagrange_equation.
+
+(** ... and for prime q and pairwise distinct nodes that equation has b_j as its only solution modulo q:
+    b_j = prod_{m<>j} x_m / (x_m - x_j) in the field, the Lagrange coefficient. *)
+Theorem birkhoff_is_lagrange :
+  forall (q : Z) (params : list (Z * nat)), params <> [] ->
+  Z.of_nat (length params) <= 2 ^ 64 ->
+  (forall i : nat, (i < length params)%nat -> snd (nth i params (0%Z, 0%nat)) = 0%nat) ->
+  Znumtheory.prime q ->
+  forall Minv : mat,
+  (forall i j : nat, (i < length params)%nat -> (j < length params)%nat -> i <> j ->
+     fst (nth i params (0, 0%nat)) mod q <> fst (nth j params (0, 0%nat)) mod q) ->
+  matrix_inverse q (birkhoff_matrix q params) (length params) = Val Minv ->
+  mat_mul q Minv (birkhoff_matrix q params) = mat_id (length params) ->
+  exists b : list Z,
+    birkhoff_coeffs q params = Val b /\
+    (forall j : nat, (j < length params)%nat ->
+       (nth j b 0 * lag_den params j) mod q = lag_num params j mod q /\
+       (forall lam : Z, (lam * lag_den params j) mod q = lag_num params j mod q -> nth j b 0 mod q = lam mod q)).
+Proof. exact PolyLagrange.birkhoff_is_lagrange. Qed.
+Check birkhoff_is_lagrange :
+  forall (q : Z) (params : list (Z * nat)), params <> [] ->
+  Z.of_nat (length params) <= 2 ^ 64 ->
+  (forall i : nat, (i < length params)%nat -> snd (nth i params (0%Z, 0%nat)) = 0%nat) ->
+  Znumtheory.prime q ->
+  forall Minv : mat,
+  (forall i j : nat, (i < length params)%nat -> (j < length params)%nat -> i <> j ->
+     fst (nth i params (0, 0%nat)) mod q <> fst (nth j params (0, 0%nat)) mod q) ->
+  matrix_inverse q (birkhoff_matrix q params) (length params) = Val Minv ->
+  mat_mul q Minv (birkhoff_matrix q params) = mat_id (length params) ->
+  exists b : list Z,
+    birkhoff_coeffs q params = Val b /\
+    (forall j : nat, (j < length params)%nat ->
+       (nth j b 0 * lag_den params j) mod q = lag_num params j mod q /\
+       (forall lam : Z, (lam * lag_den params j) mod q = lag_num params j mod q -> nth j b 0 mod q = lam mod q)).
+Print Assumptions birkhoff_is_lagrange.
 
 (** Feldman check: for a non-zero share v, feldman_verify on the commitment of f accepts exactly when v = f(x). *)
 Theorem feldman_iff :
